@@ -81,7 +81,14 @@ func (c DateCodec) Omit(p unsafe.Pointer) bool {
 func (c DateCodec) Write(w *avro.WriteBuf, p unsafe.Pointer) {
 	t := *(*time.Time)(p)
 	// TODO: wrangle this into Time.AppendFormat?
-	day := int32(t.Unix() / (60 * 60 * 24))
+	// Round down, so that a time of day before 1970 belongs to its own date and
+	// not to the following one.
+	secs := t.Unix()
+	days := secs / (60 * 60 * 24)
+	if secs%(60*60*24) < 0 {
+		days--
+	}
+	day := int32(days)
 
 	c.Int32Codec.Write(w, unsafe.Pointer(&day))
 }
